@@ -33,7 +33,7 @@ def units(tier, seed):
         wide = []
         fam = [(66, 2), (2, 66)]
     else:
-        shapes = [(n, m) for n in range(1, 9) for m in range(1, 9)] + [(12, 12), (16, 8), (8, 16)]
+        shapes = [(n, m) for n in range(1, 9) for m in range(1, 9)] + [(10, 10), (12, 12), (12, 6), (6, 12)]
         ind = [(66, 2), (2, 66), (70, 3), (3, 70), (130, 2), (2, 130)]
         api = [(n, m) for n in range(1, 6) for m in range(1, 6)]
         wide = [(20, 3, 6), (3, 20, 6)]
